@@ -207,6 +207,16 @@ def handle (op : String) (args : List String) : String :=
       ({ st with lyds := Rb.Lyds.insert2 rbGt st.sibs x st.lyds,
                  sibs := st.sibs.takeWhile (fun e => !rbGt e x) ++ x :: st.sibs.dropWhile (fun e => !rbGt e x) } : RbSt)) d
     "ok" ++ rbShow r
+  | "rbp", [_variant, _desc, _yang, dscript, sscript] =>
+    -- `lyd_dup_siblings(first source instance, target container, …)`: the copies (new identities, in source order) through the
+    -- sibling loop of `lyd_dup` with its `first_llist` fast path
+    let run := fun (st : RbSt) (sc : String) => (((sc.splitOn ",").filter (· ≠ "")).foldl rbStep ("", st)).2
+    let d := run ⟨Rb.Lyds.empty, [], 0, false⟩ dscript
+    let s := run ⟨Rb.Lyds.empty, [], d.serial, false⟩ sscript
+    let copies : List RbInst := (List.range s.sibs.length).zip s.sibs |>.map (fun p => (p.2.1, s.serial + p.1))
+    let r := Rb.Lyds.dupInto rbGt (d.lyds, d.sibs) copies
+    -- the copy of the source leader keeps a (now empty) `lyds_tree` metadata when it was linked without `lyds_insert`
+    "ok" ++ rbShow { d with lyds := r.1, sibs := r.2, emptyMeta := d.sibs.isEmpty && (s.lyds.tree matches .node ..) }
   | "rbleak", [] => "ok 0"
   | _, _ => "err BadOp"
 
